@@ -113,7 +113,8 @@ def closure_carriers(body, closure_body):
     for n in body.calls():
         for a in n.ev["args"]:
             e = tr.operand(a)
-            if any(x.k == "agg" and x.extra == closure_body.path for x in e.walk()):
+            # passed directly (by value / by reference), not merely upstream in the data flow
+            if e.k == "agg" and e.extra == closure_body.path:
                 out.append(n.id)
     return out
 
